@@ -158,6 +158,21 @@ func c09RandomPad(rng *fw.Rand) (l, r, t, b int) {
 // 180, 90 for poses 0, 90, 180, 270).
 func c09Outcome(r *fw.Rec, sym string, rd gozxing.Reader, img *image.Gray, hints map[gozxing.DecodeHintType]interface{}, want string, info map[string]interface{}, oneDRot int) (outcome string, res *gozxing.Result) {
 	var err error
+	if r.Rng.Intn(4) == 0 {
+		// the same pixels handed over as a view of a larger canvas (what cropping a camera frame
+		// with SubImage gives): origin and stride differ from a packed image
+		b := img.Bounds()
+		ox, oy := 1+r.Rng.Intn(9), 1+r.Rng.Intn(9)
+		canvas := image.NewGray(image.Rect(0, 0, b.Dx()+ox+1+r.Rng.Intn(9), b.Dy()+oy+1+r.Rng.Intn(9)))
+		for i := range canvas.Pix {
+			canvas.Pix[i] = uint8(r.Rng.Intn(256))
+		}
+		for y := 0; y < b.Dy(); y++ {
+			copy(canvas.Pix[(y+oy)*canvas.Stride+ox:(y+oy)*canvas.Stride+ox+b.Dx()], img.Pix[y*img.Stride:y*img.Stride+b.Dx()])
+		}
+		img = canvas.SubImage(image.Rect(ox, oy, ox+b.Dx(), oy+b.Dy())).(*image.Gray)
+		r.Tally("poses_handed_over_as_a_view_of_a_larger_canvas")
+	}
 	msg, stack, panicked := fw.Guard(func() {
 		var bmp *gozxing.BinaryBitmap
 		bmp, err = gozxing.NewBinaryBitmapFromImage(img)
